@@ -90,15 +90,16 @@ template <class P> struct S {
               if (!((M33(A.reexpressSymMat33(Sm)) - dense).norm() <= tight * 10)) fail("reexpress:not-RSRt", "err %g", (double)(M33(A.reexpressSymMat33(Sm)) - dense).norm());
               if (!((M33((~A).reexpressSymMat33(Sm)) - denseI).norm() <= tight * 10)) fail("reexpress-inverse:not-RtSR", "err %g", (double)(M33((~A).reexpressSymMat33(Sm)) - denseI).norm());
               if (!(diff(Rot(A * ~A), Rot()) <= tight) || !(diff(Rot(~A * A), Rot()) <= tight)) fail("R*~R:not-identity", "err %g", (double)diff(Rot(A * ~A), Rot()));
-              if (!((Rot(A * ~B).asMat33() - A.asMat33() * ~B.asMat33()).norm() <= tight) || !(ortho(Rot(A / B)) <= tight)) fail("R1*~R2:not-matrix-product", "");
+              if (!((Rot(A * ~B).asMat33() - A.asMat33() * ~B.asMat33()).norm() <= tight) || !(ortho(Rot(A / B)) <= tight)) fail("R1*~R2:not-matrix-product", "random rotations A,B of trial %d", t);
               V3 p(g(), g(), g()), r(g(), g(), g()), s(g(), g(), g()); Xf X(A, p), Y(B, r); evals += 5;
               Xf I1 = X * ~X, I2 = ~X * X;
-              if (!(diff(I1.R(), Rot()) <= tight && I1.p().norm() <= tight * 10 && diff(I2.R(), Rot()) <= tight && I2.p().norm() <= tight * 10)) fail("X*~X:not-identity", "err %g %g", (double)I1.p().norm(), (double)I2.p().norm());
-              if (!(((X * Y) * s - X * (Y * s)).norm() <= tight * 10)) fail("(X*Y)*s:not-X*(Y*s)", "");
-              if (!((~X * (X * s) - s).norm() <= tight * 10) || !((X * (~X * s) - s).norm() <= tight * 10)) fail("~X*(X*s):not-s", "");
+              char xs[400]; { Quat qa = A.convertRotationToQuaternion(); snprintf(xs, sizeof xs, "X = (quaternion %a %a %a %a, p %a %a %a) s = %a %a %a", (double)qa[0], (double)qa[1], (double)qa[2], (double)qa[3], (double)p[0], (double)p[1], (double)p[2], (double)s[0], (double)s[1], (double)s[2]); }
+              if (!(diff(I1.R(), Rot()) <= tight && I1.p().norm() <= tight * 10 && diff(I2.R(), Rot()) <= tight && I2.p().norm() <= tight * 10)) fail("X*~X:not-identity", "%s err %g %g", xs, (double)I1.p().norm(), (double)I2.p().norm());
+              if (!(((X * Y) * s - X * (Y * s)).norm() <= tight * 10)) fail("(X*Y)*s:not-X*(Y*s)", "%s", xs);
+              if (!((~X * (X * s) - s).norm() <= tight * 10) || !((X * (~X * s) - s).norm() <= tight * 10)) fail("~X*(X*s):not-s", "%s err %g", xs, (double)(~X * (X * s) - s).norm());
               Xf Z1 = ~X * Y, Z2 = Xf(~X) * Y, Z3 = X * ~Y, Z4 = X * Xf(~Y), Z5 = ~X * ~Y, Z6 = Xf(~X) * Xf(~Y);
-              if (!(diff(Z1.R(), Z2.R()) + (Z1.p() - Z2.p()).norm() + diff(Z3.R(), Z4.R()) + (Z3.p() - Z4.p()).norm() + diff(Z5.R(), Z6.R()) + (Z5.p() - Z6.p()).norm() <= tight * 30)) fail("inverse-transform-compose:differs-from-explicit-inverse", "");
-              if (!((X.shiftBaseStationToFrame(s) - ~X * s).norm() <= tight * 10) || !(((~X).shiftBaseStationToFrame(s) - X * s).norm() <= tight * 10)) fail("shiftBaseStationToFrame:not-inverse-shift", ""); }
+              if (!(diff(Z1.R(), Z2.R()) + (Z1.p() - Z2.p()).norm() + diff(Z3.R(), Z4.R()) + (Z3.p() - Z4.p()).norm() + diff(Z5.R(), Z6.R()) + (Z5.p() - Z6.p()).norm() <= tight * 30)) fail("inverse-transform-compose:differs-from-explicit-inverse", "%s", xs);
+              if (!((X.shiftBaseStationToFrame(s) - ~X * s).norm() <= tight * 10) || !(((~X).shiftBaseStationToFrame(s) - X * s).norm() <= tight * 10)) fail("shiftBaseStationToFrame:not-inverse-shift", "%s", xs); }
         }
     }
 };
